@@ -59,12 +59,20 @@ for t in ["exec_msg_params_exact", "sudo_msg_params_exact", "query_msg_params_ex
 
 # ---- fx_attr (hand/attr.rs)
 AT = "fx_attr"
-reg("c17_fx_attr_renamed_variant", "g_attr", ["C17"], "quick", "sv::attr(serde(rename=..)) takes effect on that handler's variant only (recording Serializer)", fixture=AT)
-reg("c17_fx_attr_default_field", "g_attr", ["C17"], "quick", "#[serde(default)] written on a handler argument is attached to the message field: the field may be absent on the wire, every other field may not (scripted Deserializer)", fixture=AT)
+reg("c17_fx_attr_renamed_variant", "g_attr", ["C17", "C01"], "quick", "sv::attr(serde(rename=..)) takes effect on that handler's variant only (recording Serializer)", fixture=AT)
+reg("c17_fx_attr_default_field", "g_attr", ["C17", "C01"], "quick", "#[serde(default)] written on a handler argument is attached to the message field: the field may be absent on the wire, every other field may not (scripted Deserializer)", fixture=AT)
 treg("fx_attr.T.msg_attr_lands_on_designated_kinds_only", "g_attr", ["C17"], AT)
 treg("fx_attr.T.accepted", "g_attr", ["C17"], AT)
+treg("fx_attr.T.msg_attr_on_fieldless_struct_messages", "g_attr", ["C17"], AT)
 
 # ---- fx_exec (hand/exec.rs)
 EX = "fx_exec"
 reg("c10_fx_exec_contract_method", "g_exec", ["C10"], "quick", "generated Executor method on a contract-typed handle: WasmMsg::Execute to the handle's address, empty funds, body = canonical JSON of the same ExecMsg variant (`{\"ping\":{}}`)", fixture=EX)
 reg("c10_fx_exec_interface_method", "g_exec", ["C10"], "quick", "generated Executor method on a `dyn Interface`-typed handle: body = canonical JSON of the interface ExecMsg variant", fixture=EX)
+
+# ---- fx_alias (hand/alias.rs)
+AL = "fx_alias"
+reg("c14_fx_alias_routes_order_a", "g_alias", ["C14", "C03"], "quick", "two interfaces whose module paths end in the same segment (told apart by aliases): both are routable, declaration order A", fixture=AL)
+reg("c14_fx_alias_routes_order_b", "g_alias", ["C14", "C03"], "quick", "same contract with the two sv::messages attributes swapped: same routing", fixture=AL)
+treg("fx_alias.T.wrapper_parts_exact_in_both_orders", "g_alias", ["C14", "C03"], AL)
+treg("fx_alias.T.accepted", "g_alias", ["C14"], AL)
